@@ -515,8 +515,13 @@ pub fn check(rep: &Reporter) {
 	par_for(rep, scen.len(), 8, || (), |i, _, _local| {
 		sched::explore_small(&scen[i], rep, 50_000, if thorough { 20 } else { 100 });
 	});
+	let small: Vec<Value> = Vec::new();
+	let _ = small;
 	// keep the evidence small: per-scenario entries are summarised
 	rep.extra("scenarios", json!("(one entry per scenario omitted: see scenarios_total; every scenario tree was exhausted unless caps_hit says otherwise)"));
+	for s in backpressure_scenarios() {
+		sched::explore_auto(&s, rep, if thorough { 400_000 } else { 40_000 }, 3, 50, Duration::from_secs(if thorough { 120 } else { 10 }));
+	}
 }
 
 pub fn dyn_scenarios() -> Vec<Box<dyn sched::DynScenario>> {
@@ -526,6 +531,171 @@ pub fn dyn_scenarios() -> Vec<Box<dyn sched::DynScenario>> {
 	}
 	for s in scenarios(false) {
 		v.push(Box::new(s));
+	}
+	for s in backpressure_scenarios() {
+		v.push(Box::new(s));
+	}
+	v
+}
+
+// ---------------------------------------------------------------------------------------------
+// unsubscribe / drop while the client's request queue is full (max_concurrent_requests = 1, send task parked in the transport)
+
+pub struct BackpressureScenario {
+	pub act: Act,
+	pub calls: usize,
+	pub late_push: bool,
+}
+
+pub struct BpState {
+	shared: Arc<Shared>,
+	/// the client must outlive the execution (dropping it shuts the background tasks down)
+	_client: Arc<Client>,
+	keep: Arc<Mutex<Option<Subscription<Value>>>>,
+}
+
+fn mask_bp(l: &str) -> bool {
+	!(l.starts_with("server:") || l.starts_with("client:"))
+}
+
+impl Scenario for BackpressureScenario {
+	type State = BpState;
+	fn name(&self) -> String {
+		format!("cli_mem/subs-backpressure:{:?}:calls{}:late_push={}", self.act, self.calls, self.late_push)
+	}
+	fn config(&self) -> Value {
+		json!({"action": format!("{:?}", self.act), "concurrent_calls": self.calls, "max_concurrent_requests": 1, "notification_after_action": self.late_push})
+	}
+	fn mask(&self) -> fn(&str) -> bool {
+		mask_bp
+	}
+	fn setup(&self) -> BpState {
+		let shared = Arc::new(Shared {
+			sent: Default::default(),
+			send_calls: Default::default(),
+			fail_send_at: None,
+			wire_notify: Notify::new(),
+			rxq: Default::default(),
+			rx_notify: Notify::new(),
+			tx_closed: Default::default(),
+			tx_points: true,
+		});
+		let client: Client = ClientBuilder::default()
+			.request_timeout(Duration::from_secs(3600))
+			.max_concurrent_requests(1)
+			.max_buffer_capacity_per_subscription(4)
+			.build_with_tokio(MockTx(shared.clone()), MockRx(shared.clone()));
+		let client = Arc::new(client);
+		let keep = Arc::new(Mutex::new(None));
+		// responder: answers every request that carries an id (subscribe -> "SA", others -> "ok"), no scheduling points
+		{
+			let shared = shared.clone();
+			tokio::spawn(async move {
+				let mut k = 0;
+				loop {
+					shared.wait_sent(k).await;
+					let m: Value = serde_json::from_str(&shared.sent_msg(k).unwrap()).unwrap_or(Value::Null);
+					if m.get("id").is_some() && m["method"] != "unsub" {
+						let res = if m["method"] == "sub" { json!("SA") } else { json!("ok") };
+						shared.push_rx(Ok(ReceivedMessage::Text(json!({"jsonrpc":"2.0","id": m["id"], "result": res}).to_string())));
+					}
+					k += 1;
+				}
+			});
+		}
+		let act = self.act;
+		let calls = self.calls;
+		let late_push = self.late_push;
+		{
+			let client = client.clone();
+			let shared = shared.clone();
+			let keep = keep.clone();
+			tokio::spawn(async move {
+				let sub: Subscription<Value> = client.subscribe("sub", rpc_params![0], "unsub").await.expect("subscribe");
+				sched::log("ready");
+				for i in 0..calls {
+					let client = client.clone();
+					tokio::spawn(async move {
+						sched::point(format!("fe:call:{i}")).await;
+						let r = client.request::<Value, _>("m", rpc_params![i as u64]).await;
+						sched::log(format!("call:{i}:{}", r.is_ok()));
+					});
+				}
+				let shared2 = shared.clone();
+				tokio::spawn(async move {
+					sched::point(format!("fe:A:{act:?}")).await;
+					sched::log(format!("actA:{act:?}"));
+					match act {
+						Act::Unsub => {
+							let _ = sub.unsubscribe().await;
+							sched::log("A:unsubscribed");
+						}
+						Act::Drop => {
+							drop(sub);
+							sched::log("A:dropped");
+						}
+						Act::Next => {
+							*keep.lock().unwrap() = Some(sub);
+						}
+					}
+					if late_push {
+						sched::point("env:late-push").await;
+						sched::log("late-push");
+						shared2.push_rx(Ok(ReceivedMessage::Text(json!({"jsonrpc":"2.0","method":"n","params":{"subscription":"SA","result":"late"}}).to_string())));
+					}
+				});
+			});
+		}
+		BpState { shared, _client: client, keep }
+	}
+	fn judge(&self, st: BpState, trace: &[String], panics: &[String], status: Status) -> Verdict {
+		let mut v = Vec::new();
+		if status != Status::Quiescent {
+			v.push((format!("machinery:{status:?}"), format!("{status:?}")));
+		}
+		for p in panics {
+			v.push(("panic".into(), p.clone()));
+		}
+		let sent = st.shared.sent.lock().unwrap().clone();
+		let unsubs = sent.iter().filter(|m| serde_json::from_str::<Value>(m).map_or(false, |x| x["method"] == "unsub" && x["params"] == json!(["SA"]))).count();
+		let acted = trace.iter().any(|l| l.starts_with("actA:"));
+		let calls_done = trace.iter().filter(|l| l.starts_with("call:") && l.ends_with("true")).count();
+		match self.act {
+			Act::Unsub if acted => {
+				if unsubs != 1 {
+					v.push(("backpressure:unsubscribe:request-count".into(), format!("explicit unsubscribe with a full request queue: {unsubs} unsubscribe request(s) on the wire, expected exactly 1")));
+				}
+				if !trace.iter().any(|l| l == "A:unsubscribed") {
+					v.push(("backpressure:unsubscribe:never-returns".into(), "Subscription::unsubscribe() did not return although the connection is healthy".into()));
+				}
+			}
+			Act::Drop if acted => {
+				if unsubs > 1 {
+					v.push(("backpressure:drop:more-than-one".into(), format!("{unsubs} unsubscribe requests after a drop")));
+				}
+				let late = trace.iter().any(|l| l == "late-push");
+				if late && unsubs != 1 {
+					v.push(("backpressure:drop:not-closed-by-later-notification".into(), format!("the stream was dropped and a further notification for it arrived, but {unsubs} unsubscribe requests were sent")));
+				}
+			}
+			_ => {}
+		}
+		if calls_done != self.calls {
+			v.push(("backpressure:calls".into(), format!("{calls_done} of {} concurrent calls completed", self.calls)));
+		}
+		let _k = st.keep.lock().unwrap().take();
+		Verdict { violations: v, outcome: format!("unsubs={unsubs}|acted={acted}|calls={calls_done}") }
+	}
+}
+
+pub fn backpressure_scenarios() -> Vec<BackpressureScenario> {
+	let mut v = Vec::new();
+	for act in [Act::Unsub, Act::Drop] {
+		for calls in [2usize, 3] {
+			for late_push in [false, true] {
+				v.push(BackpressureScenario { act, calls, late_push });
+			}
+		}
 	}
 	v
 }
